@@ -117,6 +117,10 @@ impl<const L: usize> OrderBook<L> {
     pub fn verif_tick(&self) -> Price {
         self.tick_size
     }
+    /// queue time under which order `i` is (or was last) queued
+    pub fn verif_key_time(&self, i: usize) -> Nanos {
+        self.orders[i].key.2
+    }
     pub fn verif_trading(&self) -> bool {
         self.trading
     }
